@@ -532,12 +532,25 @@ impl Session {
 			("next", [k]) => {
 				let k: usize = k.parse().unwrap();
 				let r = match self.slots.get_mut(k) {
-					Some(Slot::Stream(s)) => match s.next().now_or_never() {
-						Some(Some(Ok(v))) => NextRes::Item(v.get().to_string()),
-						Some(Some(Err(e))) => NextRes::Item(format!("<decode error {e}>")),
-						Some(None) => NextRes::End { lagged: matches!(s.close_reason(), Some(SubscriptionCloseReason::Lagged)) },
-						None => NextRes::Pending,
-					},
+					Some(Slot::Stream(s)) => {
+						let r = match s.next().now_or_never() {
+							Some(Some(Ok(v))) => NextRes::Item(v.get().to_string()),
+							Some(Some(Err(e))) => NextRes::Item(format!("<decode error {e}>")),
+							Some(None) => NextRes::End { lagged: matches!(s.close_reason(), Some(SubscriptionCloseReason::Lagged)) },
+							None => NextRes::Pending,
+						};
+						// `close_reason()` is `Some` once the stream has ended, and before that at most `Lagged`
+						let cr = s.close_reason();
+						let consistent = match &r {
+							NextRes::End { .. } => cr.is_some(),
+							_ => matches!(cr, None | Some(SubscriptionCloseReason::Lagged)),
+						};
+						if !consistent {
+							obs.literal = Some(format!("close-reason-inconsistent:{cr:?}"));
+							return obs;
+						}
+						r
+					}
 					_ => {
 						obs.literal = Some("bad-op".into());
 						return obs;
